@@ -2,7 +2,7 @@
    Only pinned statements, `exact`, Examples by vm_compute, and Print Assumptions. *)
 From Coq Require Import String List NArith ZArith PArith Bool FMapPositive.
 From Sylt Require Import Syntax.Resolved Types.TyGraph Types.Tc Types.Ctx Types.TcInv Types.Reject Types.Mismatch
-  Types.CopyInst Types.Calls Types.CallsDecl Types.BlobFields Types.FieldAssign Types.TwoDecls Types.ForwardDecl Types.DeclOrder Types.UnionCons.
+  Types.CopyInst Types.Calls Types.CallsDecl Types.BlobFields Types.FieldAssign Types.TwoDecls Types.ForwardDecl Types.DeclOrder Types.UnionCons Types.Complete1 Types.TupleArith.
 Import ListNotations.
 Local Open Scope string_scope.
 
@@ -330,6 +330,50 @@ Example C03_has_con_def : forall s i c,
   has_con s i c = (exists r n, rep s i = Some r /\ lk s r = Some n /\ In c (ncons n)).
 Proof. reflexivity. Qed.
 
+(* the arithmetic of tuples is componentwise WITH THE SAME OPERATOR (fn add / sub / mul / cmp).  `-` of two tuple types
+   whose i-th components are both str, or both bool, is rejected; so is `*`; at depth one (C03_tuple_sub_componentwise,
+   C03_tuple_mul_componentwise) and under one more tuple level (C03_tuple_arith_nested); while the operator applied to two
+   tuples whose components are pairwise fine for THAT operator succeeds and changes nothing (C03_tuple_arith_ok: `+` of
+   two (str, int) tuples).  A round-5 seed recursed with `add` in the tuple arm of sub and mul. *)
+Theorem C03_tuple_sub_componentwise : forall g sp a b s xs ys i x y t,
+  wf s -> head s a = Some (HTuple xs) -> head s b = Some (HTuple ys) ->
+  nth_error xs i = Some x -> nth_error ys i = Some y -> head s x = Some t -> head s y = Some t -> t = HStr \/ t = HBool ->
+  notok (g_arith (gfix g) ASub sp a b s).
+Proof.
+  intros g sp a b s xs ys i x y t W Ha Hb Hx Hy Tx Ty Ht. apply TupleArith.tuple1_rejected; [exact W|].
+  exists xs, ys, i, x, y. repeat (split; [assumption|]). exists t, t. destruct Ht as [-> | ->]; repeat split; assumption.
+Qed.
+
+Theorem C03_tuple_mul_componentwise : forall g sp a b s xs ys i x y t,
+  wf s -> head s a = Some (HTuple xs) -> head s b = Some (HTuple ys) ->
+  nth_error xs i = Some x -> nth_error ys i = Some y -> head s x = Some t -> head s y = Some t -> t = HStr \/ t = HBool ->
+  notok (g_arith (gfix g) AMul sp a b s).
+Proof.
+  intros g sp a b s xs ys i x y t W Ha Hb Hx Hy Tx Ty Ht. apply TupleArith.tuple1_rejected; [exact W|].
+  exists xs, ys, i, x, y. repeat (split; [assumption|]). exists t, t. destruct Ht as [-> | ->]; repeat split; assumption.
+Qed.
+
+(* any operator, any pair of leaf types it is not defined on, at depth one and two *)
+Theorem C03_tuple_arith_componentwise : forall g k sp a b s, wf s -> tuple1_bad k s a b -> notok (g_arith (gfix g) k sp a b s).
+Proof. exact TupleArith.tuple1_rejected. Qed.
+Theorem C03_tuple_arith_nested : forall g k sp a b s, wf s -> tuple2_bad k s a b -> notok (g_arith (gfix g) k sp a b s).
+Proof. exact TupleArith.tuple2_rejected. Qed.
+Theorem C03_tuple_arith_ok : forall g k sp a b s xs ys,
+  head s a = Some (HTuple xs) -> head s b = Some (HTuple ys) -> Forall2 (fun x y => arith_ok s k x y) xs ys ->
+  g_arith (gfix (S (S g))) k sp a b s = Ok (tt, s).
+Proof. exact TupleArith.tuple_arith_ok. Qed.
+
+Example C03_tuple1_bad_def : forall k s a b,
+  tuple1_bad k s a b = (exists xs ys i x y, head s a = Some (HTuple xs) /\ head s b = Some (HTuple ys) /\
+                          nth_error xs i = Some x /\ nth_error ys i = Some y /\ leaf_bad k s x y).
+Proof. reflexivity. Qed.
+Example C03_leaf_bad_def : forall k s x y,
+  leaf_bad k s x y = (exists t t', head s x = Some t /\ head s y = Some t' /\ rigid t = true /\ rigid t' = true /\ arith_base_ok k t t' = false).
+Proof. reflexivity. Qed.
+Example C03_arith_ok_def : forall s k a b,
+  arith_ok s k a b = (exists ta tb, head s a = Some ta /\ head s b = Some tb /\ arith_base_ok k ta tb = true).
+Proof. reflexivity. Qed.
+
 (* two types with components of different leaf types at the same position do not unify *)
 Theorem C03_component_conflict : forall g sp a b s ha hb x ca cb ta tb,
   wf s -> head s a = Some ha -> head s b = Some hb -> kid ha x = Some ca -> kid hb x = Some cb ->
@@ -581,7 +625,25 @@ Example C03_example_union_keeps_constraints :
   union_example false = ([CNeg], (2%positive, 2%positive)) /\ union_example true = ([CNeg], (2%positive, 2%positive)).
 Proof. split; vm_compute; reflexivity. Qed.
 
+(* ("a", 1) + ("b", 2) is accepted; ("a", 1) - ("b", 2), ("a", 1) * ("b", 2), (1, true) - (2, false) and the nested
+   ((1, "a"), 1) - ((2, "b"), 2) are rejected *)
+Definition tup (l : list expr) : expr := ECollection CTuple l (spl 3).
+Definition tup_prog (op : binop) (a b : expr) : resolved := prog [SStatementExpression (EBinOp op a b (spl 3)) (spl 3)].
+Example C03_example_tuple_componentwise :
+  typecheck 60 (tup_prog Add (tup [EStr "a" (spl 3); EInt 1 (spl 3)]) (tup [EStr "b" (spl 3); EInt 2 (spl 3)])) = Ok tt /\
+  typecheck 60 (tup_prog Sub (tup [EStr "a" (spl 3); EInt 1 (spl 3)]) (tup [EStr "b" (spl 3); EInt 2 (spl 3)])) = Err (mkErr KBinOp (spl 3)) [] /\
+  typecheck 60 (tup_prog Mul (tup [EStr "a" (spl 3); EInt 1 (spl 3)]) (tup [EStr "b" (spl 3); EInt 2 (spl 3)])) = Err (mkErr KBinOp (spl 3)) [] /\
+  typecheck 60 (tup_prog Sub (tup [EInt 1 (spl 3); EBool true (spl 3)]) (tup [EInt 2 (spl 3); EBool false (spl 3)])) = Err (mkErr KBinOp (spl 3)) [] /\
+  typecheck 60 (tup_prog Sub (tup [tup [EInt 1 (spl 3); EStr "a" (spl 3)]; EInt 1 (spl 3)])
+                             (tup [tup [EInt 2 (spl 3); EStr "b" (spl 3)]; EInt 2 (spl 3)])) = Err (mkErr KBinOp (spl 3)) [].
+Proof. repeat split; vm_compute; reflexivity. Qed.
+
 Print Assumptions C03_placement.
+Print Assumptions C03_tuple_sub_componentwise.
+Print Assumptions C03_tuple_mul_componentwise.
+Print Assumptions C03_tuple_arith_componentwise.
+Print Assumptions C03_tuple_arith_nested.
+Print Assumptions C03_tuple_arith_ok.
 Print Assumptions C03_union_keeps_constraints.
 Print Assumptions C03_forward_blob_mention.
 Print Assumptions C03_blob_mention_both_orders.
